@@ -118,7 +118,18 @@ fn set_limits(rlimit_as: u64) {
     }
 }
 
+/// All scenario code runs on a thread with an explicit 8 MiB stack so that native-stack findings do
+/// not depend on the caller's `ulimit -s`.
+pub const SIM_STACK: usize = 8 << 20;
+
 pub fn worker_main(args: WorkerArgs) {
+    let h = std::thread::Builder::new().name("sim".into()).stack_size(SIM_STACK).spawn(move || worker_body(args)).unwrap_or_else(|e| harness_error(&format!("spawn sim thread: {}", e)));
+    if h.join().is_err() {
+        std::process::exit(101);
+    }
+}
+
+fn worker_body(args: WorkerArgs) {
     let scen = scenario_by_name(&args.scenario).unwrap_or_else(|| harness_error("unknown scenario"));
     let info = scen.info();
     set_limits(info.rlimit_as);
@@ -215,6 +226,14 @@ pub fn plan_for(scenario: &str, seed: u64, tier: Tier, run: u64) -> Plan {
 
 /// `bsvsim exec`: execute one explicit plan, write the result JSON to `out`.
 pub fn exec_main(scenario: &str, plan_file: &Path, out: &Path, crumb: Option<PathBuf>, known: BTreeSet<String>, trace: bool) {
+    let (scenario, plan_file, out) = (scenario.to_string(), plan_file.to_path_buf(), out.to_path_buf());
+    let h = std::thread::Builder::new().name("sim".into()).stack_size(SIM_STACK).spawn(move || exec_body(&scenario, &plan_file, &out, crumb, known, trace)).unwrap_or_else(|e| harness_error(&format!("spawn sim thread: {}", e)));
+    if h.join().is_err() {
+        std::process::exit(101);
+    }
+}
+
+fn exec_body(scenario: &str, plan_file: &Path, out: &Path, crumb: Option<PathBuf>, known: BTreeSet<String>, trace: bool) {
     let scen = scenario_by_name(scenario).unwrap_or_else(|| harness_error("unknown scenario"));
     let info = scen.info();
     set_limits(info.rlimit_as);
@@ -524,21 +543,29 @@ pub fn run_sharded(scratch: &Path, scenario: &str, seed: u64, tier: Tier, indice
         let list = scratch.join(format!("{}.w{}.g{}.list", tag, k, sh.gen));
         sh.child = Some(spawn_worker(scenario, seed, tier, &sh.indices, &sh.out, &sh.err, &sh.crumb, &known_file, &list));
     }
-    // wait each shard in turn (they run concurrently); respawn on death
-    for k in 0..shards.len() {
-        loop {
+    // poll all shards; a dead worker is attributed and its shard resumed at once
+    let mut live = shards.iter().filter(|s| s.child.is_some()).count();
+    while live > 0 {
+        let mut progressed = false;
+        for k in 0..shards.len() {
             let sh = &mut shards[k];
-            let mut child = match sh.child.take() {
-                Some(c) => c,
-                None => break,
+            let status = match sh.child.as_mut() {
+                None => continue,
+                Some(c) => match c.try_wait() {
+                    Ok(Some(st)) => st,
+                    Ok(None) => continue,
+                    Err(e) => harness_error(&format!("wait: {}", e)),
+                },
             };
-            let status = child.wait().unwrap_or_else(|e| harness_error(&format!("wait: {}", e)));
+            progressed = true;
+            sh.child = None;
             let ended = parse_worker_out(&sh.out, &mut agg, &mut done);
             if status.success() && ended {
                 let _ = fs::remove_file(&sh.out);
                 let _ = fs::remove_file(&sh.err);
                 let _ = fs::remove_file(&sh.crumb);
-                break;
+                live -= 1;
+                continue;
             }
             // died: attribute
             let crumb = read_crumb(&sh.crumb);
@@ -565,12 +592,12 @@ pub fn run_sharded(scratch: &Path, scenario: &str, seed: u64, tier: Tier, indice
             if respawns > 200_000 {
                 harness_error("too many worker deaths");
             }
-            // resume with every index of this shard that is neither done nor dead
             let rest: Vec<u64> = sh.indices.iter().cloned().filter(|i| !done.contains(i) && !dead.contains(i)).collect();
             let _ = fs::remove_file(&sh.out);
             let _ = fs::remove_file(&sh.err);
             if rest.is_empty() {
-                break;
+                live -= 1;
+                continue;
             }
             sh.gen += 1;
             sh.out = scratch.join(format!("{}.w{}.g{}.out", tag, k, sh.gen));
@@ -578,6 +605,9 @@ pub fn run_sharded(scratch: &Path, scenario: &str, seed: u64, tier: Tier, indice
             let list = scratch.join(format!("{}.w{}.g{}.list", tag, k, sh.gen));
             sh.child = Some(spawn_worker(scenario, seed, tier, &rest, &sh.out, &sh.err, &sh.crumb, &known_file, &list));
             let _ = sh.pos;
+        }
+        if !progressed {
+            std::thread::sleep(std::time::Duration::from_millis(3));
         }
     }
     agg.runs += agg.deaths;
@@ -859,6 +889,24 @@ pub fn orchestrate(a: OrchArgs) -> i32 {
         println!("VIOLATION property={} replay={}", property, rp.display());
         reported.push((final_v.signature.clone(), rp.display().to_string()));
         exit = 1;
+    }
+
+    // 4b. triage aid (never used by registered commands): minimise one trace per distinct signature
+    if let Ok(dir) = std::env::var("VERIF_SAVE_ALL") {
+        let mut seen: BTreeSet<String> = BTreeSet::new();
+        for (&run, v) in agg.violations.iter() {
+            if !seen.insert(v.signature.clone()) {
+                continue;
+            }
+            let plan = plan_for(info.name, a.seed, a.tier, run);
+            if let Some(cv) = exec_plan(&scratch, info.name, &plan, &known, false).violation {
+                let (mp, tries) = minimise(&scratch, scen.as_ref(), info.name, &plan, &cv, &known);
+                let safe: String = cv.signature.chars().map(|c| if c.is_ascii_alphanumeric() { c } else { '_' }).collect();
+                let path = PathBuf::from(&dir).join(format!("{}-{}.json", property, safe));
+                write_replay(&path, property, info.name, a.seed, Some(run), a.tier, &mp, &cv, &format!("minimised from {} to {} events in {} re-executions", plan.events.len(), mp.events.len(), tries));
+                println!("saved {} -> {}", cv.signature, path.display());
+            }
+        }
     }
 
     // 5. evidence
